@@ -3,10 +3,11 @@ CONSTANTS
   SpuriousPass = FALSE
   AllSchedules = FALSE
   PermuteModules = FALSE
-  Trees = {"flat", "nested", "three", "empty"}
+  Trees = {"flat", "nested", "three", "empty", "dotted"}
   BackSets = {"none", "pro", "epi", "both", "two", "mixed", "comment", "other"}
   Collisions = {"none", "duptype", "typeenum", "externdef", "uservft", "uservft1"}
   Ptrs = {4, 8}
+  InDirs = {"plain", "dot", "trailing"}
 INVARIANTS Replay
 CHECK_DEADLOCK FALSE
 VIEW View
